@@ -15,7 +15,7 @@ STRATEGIES = ["reliable", "default_pacbio", "sensitive_pacbio", "fl_pacbio", "de
 
 def noisy_world(seed, n_chroms=3):
     w = world2.rich_world(seed, n_chroms=n_chroms, genes_per_chrom=3, reads_per_t=6, hidden_cov=7, unmapped=1, extra_len=70000,
-                          zoo=tuple(z for z in world2.ZOO_ALL if z not in ("intronic", "apa")))
+                          zoo=tuple(z for z in world2.ZOO_ALL if z not in ("intronic", "apa", "mixed_strand_gene")))   # a reference gene with transcripts on both strands cannot have a gene record on "the" strand of its transcripts
     rng = w.rng
     main_chroms = [c for c in w.chrom_order if c not in ("chrU", "chrE", "chrN", "chrP", "chrQ", "chrS")]     # the odd sequences of the zoo stay as they are
     # genes whose hidden isoform is a new combination of annotated introns (.nic)
